@@ -1,7 +1,7 @@
 SPECIFICATION Spec
 CONSTANTS
   MaxEntries = 3
-  SizeDigits = {1, 3}
+  SizeDigits = {1}
   MtimeDigits = {10, 19}
   MaxVols = 2
   MaxVolEntries = 2
